@@ -311,7 +311,8 @@ func (c *overlapCase) run() {
 	// identify the observations of A and B (A's may come after B's in the log)
 	for i := before; i < len(x.R.Obs); i++ {
 		o := x.R.Obs[i]
-		if c.AObs == nil && o.Kind == opObsKind(c.A) && (c.A.Kind != "get" || (o.Scope == c.A.Scope && o.Ident == c.A.Ident)) {
+		if c.AObs == nil && o.Kind == opObsKind(c.A) && (c.A.Kind != "get" || (o.Scope == c.A.Scope && o.Ident == c.A.Ident)) &&
+			(c.A.Kind != "close" || o.Scope == c.A.Scope) {
 			if c.A.Kind == c.B.Kind && c.A.Scope == c.B.Scope && c.A.Ident == c.B.Ident {
 				// identical ops: cannot and need not tell them apart
 				c.AObs = o
@@ -320,7 +321,7 @@ func (c *overlapCase) run() {
 			c.AObs = o
 			continue
 		}
-		if c.BObs == nil && o.Kind == opObsKind(c.B) {
+		if c.BObs == nil && o.Kind == opObsKind(c.B) && (c.B.Kind != "close" || o.Scope == c.B.Scope) {
 			c.BObs = o
 		}
 	}
@@ -538,6 +539,12 @@ func TestC12Schedules(t *testing.T) {
 			c.X.Concurrent = true
 			if f := c.X.checkC12(failing); f != nil {
 				return f
+			}
+			// B closes an ancestor (or the provider) and had to wait for A's Close of a descendant, which was
+			// parked mid-disposal: B's result covers that subtree, so it must report what A's Close reports
+			if c.Parked && c.BBlocked && c.A.Kind == "close" && c.AObs != nil && c.BObs != nil && c.AObs.Err != nil &&
+				(c.B.Kind == "pclose" || (c.B.Kind == "close" && c.B.Scope != c.A.Scope)) && c.BObs.Err == nil {
+				return fail("C12", "reports", "owner-loses-waited-close/"+c.B.Kind, "%s had to wait for %s (parked inside an instance's Close), which then returned %v - yet %s returned nil", c.B, c.A, firstLine(c.AObs.Err), c.B)
 			}
 			return c.X.checkC10(true)
 		},
